@@ -1029,6 +1029,26 @@ pub fn campaign(run: &mut Run, focus: Focus) {
         run.direct(|| json!({"hex": hex(b), "ops": [name]}), r);
     }
 
+    // (0b) C12 only: a warm-up pass of the stress shapes (deflate bombs etc.) through every worker, so that
+    // the inputs that follow run in processes with a history of large loads
+    if focus == Focus::C12 {
+        let mut warm = stress_shapes(false);
+        {
+            // one large but entirely honest sprite (100 MB of pixels from ~100 KB of input)
+            let side = 5000u16;
+            let px = vec![0u8; side as usize * side as usize * 4];
+            let mut b = header_bytes(1, 4, 4, 32);
+            b.extend(frame_bytes(&[simple_layer(0, LayerKind::Image, 1), image_cel(0, side, side, px, Some(9))], 1));
+            warm.push(("warm-up-honest-5000".into(), b));
+        }
+        let _ = par_chunks(lanes, (warm.len() * 2) as u64, || (), |_, i| {
+            let (_, b) = &warm[(i as usize) % warm.len()];
+            if b.len() < (1 << 20) {
+                let _ = pool.run((i as usize * 7 + i as usize / warm.len()) % lanes, b, flags, i);
+            }
+        });
+    }
+
     // (A) tape-driven hostile inputs with shrinking
     let cases = if thorough { 60000 } else { 5000 };
     {
